@@ -343,6 +343,16 @@ pub open spec fn arith_at(a: int, b: int, d: int, k: int) -> int { if a <= b { a
 //@FN expand_brace
 //@FN has_operator_char
 //@FN expand_glob
+// ---- shared with the other expansion units (common.ASSIGN_PREFIX) ----
+pub uninterp spec fn spec_is_assign(t: Seq<char>) -> bool;
+#[verifier::external_body]
+pub fn is_assignment_word(text: &str) -> (r: bool) ensures r == spec_is_assign(text@) { unimplemented!() }
+pub open spec fn assign_prefix(toks: Seq<Token>, k: int) -> bool {
+    forall|j: int| 0 <= j <= k && j < toks.len() ==> (#[trigger] toks[j]).0@.len() == 0 && spec_is_assign(toks[j].1@)
+}
+//@FN in_assignment_prefix
+// the words the range pass rewrites: well-formed range, and not one of the assignments the line starts with (their value is text)
+pub open spec fn range_gate(toks: Seq<Token>, k: int) -> bool { range_ok(toks[k].1@) && !assign_prefix(toks, k) }
 //@FN expand_brace_range
 ''' + common.TAIL
 
@@ -514,6 +524,22 @@ expand_brace_range = Fn(S, 'expand_brace_range', pre_rewrites=[], rewrites=[], i
 )
 expand_brace_range.pre_rewrites = RANGE_RW
 
+
+def _gate(txt):
+    """range_ok(<seq>[<idx>].1@)  ->  range_gate(<seq>, <idx>): the gate of the range pass depends on the position of the word (assignment prefix)"""
+    return re.sub(r'range_ok\(((?:old\(tokens\)|tokens)@)\[(.*?)\]\.1@\)', r'range_gate(\1, \2)', txt)
+
+
+import re
+def _lab(l):
+    """the range pass is the one that runs after command substitution: what it leaves alone matters to C11 (braces in an output are text)"""
+    props, rest = l.split('.', 1)
+    return (props if 'C11' in props.split('+') else props + '+C11') + '.' + rest
+
+
+expand_brace_range.ensures = [(_lab(l), _gate(e)) for l, e in expand_brace_range.ensures]
+expand_brace_range.loops[0].invariant = [(_lab(l), _gate(e)) for l, e in expand_brace_range.loops[0].invariant]
+
 # ------------------------------------------------------------------ recursive brace parser: safety + termination
 BRACE_RW = [
     Rw(r'\b(ss|sss)\.remove\(0\)', r'vx_remove0(&mut \1)', regex=True, rule='R12', why='String::remove(0) (first char) through a shim: requires non-empty'),
@@ -575,5 +601,5 @@ brace_getgroup = Fn(S, 'brace_getgroup', ret='r', rewrites=BRACE_RW, props=('C12
            },
 )
 
-UNIT = Unit('U-EXP1', TEMPLATE, fns=[common.has_operator_fn(), brace_getitem, brace_getgroup, expand_brace, expand_glob, expand_brace_range], props=('C12', 'C13', 'C01', 'C05'))
+UNIT = Unit('U-EXP1', TEMPLATE, fns=[common.has_operator_fn(), common.in_assignment_prefix_fn(), brace_getitem, brace_getgroup, expand_brace, expand_glob, expand_brace_range], props=('C12', 'C13', 'C01', 'C05'))
 TRUSTED = common.TRUSTED_STR + common.TRUSTED_TOKEN + []
